@@ -328,8 +328,62 @@ type zzDeep struct {
 // C03ContainersDeep (thorough): longer lists, lists of strings of symbolic lengths, a multi-entry map
 // (decoded from documented bytes in a fixed order; Go randomises the encoder's order, so the encoder
 // side is checked on the entry SET through the decoder), and a three-level struct.
+type zzPadded struct {
+	A uint8
+	L int64
+}
+
+type zzPadded2 struct {
+	W int16
+	I uint32
+}
+
 func C03ContainersDeep() {
-	switch sym.Choose("shape", 4) {
+	switch sym.Choose("shape", 7) {
+	case 4:
+		// entries whose in-memory size (alignment padding) differs from their 9 wire bytes
+		n := 1 + sym.Choose("n", 2)
+		v := make([]zzPadded, n)
+		spec := zzLE32(uint32(n))
+		for i := range v {
+			v[i] = zzPadded{A: sym.U8("a"), L: sym.I64("l")}
+			spec = zzCat(spec, []byte{v[i].A}, zzLE64(uint64(v[i].L)))
+		}
+		var back []zzPadded
+		zzCheck("[]struct{uint8,int64}", "[(Cl)]", v, spec, &back, func() bool {
+			if len(back) != n {
+				return false
+			}
+			ok := true
+			for i := range v {
+				ok = sym.And(ok, back[i] == v[i])
+			}
+			return ok
+		})
+	case 5:
+		k := sym.U8("k")
+		e := zzPadded2{W: sym.I16("w"), I: sym.U32("i")}
+		v := map[uint8]zzPadded2{k: e}
+		spec := zzCat(zzLE32(1), []byte{k}, zzLE16(uint16(e.W)), zzLE32(e.I))
+		var back map[uint8]zzPadded2
+		zzCheck("map[uint8]struct{int16,uint32}", "{C(wI)}", v, spec, &back, func() bool {
+			got, ok := back[k]
+			return len(back) == 1 && ok && got == e
+		})
+	case 6:
+		// a map whose key has no serialized form (empty tuple): the entry is the value alone; the
+		// signature-driven reader must still consume and return it
+		x := sym.U8("x")
+		spec := zzCat(zzLE32(1), []byte{x}, []byte{0x77})
+		for _, sig := range []string{"{()C}", "{vC}"} {
+			reader, err := signature.MakeReader(sig)
+			sym.Assert(err == nil, sig+"/reader-built")
+			r := bytes.NewReader(spec)
+			got, err := reader.Read(r)
+			sym.Assert(err == nil, sig+"/reader-accepts")
+			sym.Assert(r.Len() == 1, sig+"/reader-consumes-exactly")
+			sym.Assert(sym.EqBytes(got, spec[:5]), sig+"/reader-returns-unchanged")
+		}
 	case 0:
 		n := sym.Choose("n", 7)
 		v := make([]int32, n)
